@@ -583,12 +583,20 @@ pub fn reference_prog() -> Prog {
 fn run_case(rc: &mut RunCtx, id: String, prog: &Prog, frag: &Frag, jitter: Option<Rng>, hr: Rng, sample: bool) {
     rc.begin(&id);
     let mut res = CaseResult::new(id);
+    crate::hooks::set_recording(true);
     let nops: usize = prog.threads.iter().flatten().map(|o| o.len()).sum();
     res.obs("ops", nops as u64);
     res.obs("threads", prog.threads.len() as u64);
     if let Some(out) = execute(prog, frag, jitter, hr, &mut res) {
         check_stream(&out, prog.frame_max, &mut res);
+        if let Some(t) = out.h.peek(|st| st.io_thread) {
+            for shape in crate::hooks::batch_shapes(t) {
+                res.tags.insert(format!("batch:{}", shape));
+            }
+            let _ = crate::hooks::take_events(t);
+        }
     }
+    crate::hooks::set_recording(false);
     // signature: the shape of the program and of the fragmentation
     let shape = format!(
         "{:?}|{:?}",
